@@ -360,6 +360,20 @@ class Interp:
             i = op["i"] % len(b.data)
             em.code("%s.push(%s[%d])" % (an, op["b"], i))
             a.data.append(b.data[i])
+            if op.get("v", 1) % 2 == 0 and op.get("b") in self.plain and op.get("a") in self.plain:
+                # (element types of map/filter results trip a typing quirk of the compiler, hence `plain`)
+                # the argument (or the index) of further operations is an element read written inline - a view into a list,
+                # possibly into the very list the operation works on
+                em.code("print %s.index_of(%s[%d])" % (an, op["b"], i))
+                em.out(str(a.data.index(b.data[i])))
+                x = b.data[i]
+                if 0 <= x < len(a.data):
+                    em.code("%s[%s[%d]] += %s[%d]" % (an, op["b"], i, op["b"], i))
+                    a.data[x] = a.data[x] + x
+                x = b.data[i]
+                if 0 <= x < len(a.data):
+                    em.code("print %s.remove(%s[%d])" % (an, op["b"], i))
+                    em.out(str(a.data.pop(x)))
             return True
         if k == "push_fn":
             if a.t != "li" or not self.elem_ok("li", op.get("v")):
@@ -649,6 +663,23 @@ class Interp:
             if a.t != "mii" or not kt_ok(key) or key not in a.data or not vt_ok(op.get("v")):
                 return False
             k2 = a.data[key]
+            if op["v"] in (0, 7):
+                # ... or the argument of a built-in: m.remove(m[k]), m.replace(m[k], v), m.contains_key(m[k]), m[m[k]]
+                var = op.get("i", 0) % 4
+                if var == 0:
+                    em.code("print %s.remove(%s[%s])" % (an, an, lit(key)))
+                    em.out(fmt_value(a.data.pop(k2, None)))
+                elif var == 1:
+                    em.code("print %s.replace(%s[%s], %s)" % (an, an, lit(key), lit(op["v"])))
+                    em.out(fmt_value(a.data.get(k2)))
+                    a.data[k2] = op["v"]
+                elif var == 2:
+                    em.code("print %s.contains_key(%s[%s])" % (an, an, lit(key)))
+                    em.out("true" if k2 in a.data else "false")
+                else:
+                    em.code("print %s[%s[%s]]" % (an, an, lit(key)))
+                    em.out(fmt_value(a.data.get(k2)))
+                return True
             if op.get("i", 0) % 2 and k2 in a.data:
                 em.code("%s[%s[%s]] += %s" % (an, an, lit(key), lit(op["v"])))
                 a.data[k2] = a.data[k2] + op["v"]
